@@ -109,7 +109,14 @@ def run(ctx):
     # all paths from a writer to the normal exit pass the rename when existent: writers precede rename
     for c in writers:
         ctx.check("R1", cp, rn in g.reach([g.node_of(c)]), f"writer-before-rename@{c.lineno}", "every write precedes the publishing rename", node=c)
-    ctx.floor("R1", 14)
+    # the staged copy is handed to ensure_perms without a live object: "complete new metadata" needs every attribute enforced there
+    from .C18 import unknown_live_enforced
+    ep = P.func(MOD, "ensure_perms")
+    ctx.require(len(ep.params()) >= 2, "ensure_perms: (entry, live-object) parameters not found")
+    ctx.check("R1", cp, all(len(c.args) == 1 and not c.keywords for c in writers if dotted(c.func) == "ensure_perms"), "staged-copy-perms-unconditional",
+              "copyfile calls ensure_perms on the staged copy without a live object (nothing is assumed about what the creating syscall left)")
+    unknown_live_enforced(ctx, ep, ep.params()[1], "R1")
+    ctx.floor("R1", 18)
 
     # ---- R2 do_link -------------------------------------------------------------------
     dl = P.func(MOD, "do_link")
